@@ -43,6 +43,10 @@ def make_policy(spec):
     if k == 'dcaware':
         return P.DCAwareRoundRobinPolicy(spec[1], spec[2])
     if k == 'whitelist':
+        if len(spec) > 2 and spec[2] == 'names':
+            # white list given as host names: name resolution is environment, owned here
+            P.socket = _Resolver
+            return P.WhiteListRoundRobinPolicy(['node%d.test' % i for i in sorted(spec[1])])
         return P.WhiteListRoundRobinPolicy([addr(i) for i in sorted(spec[1])])
     if k == 'filter':
         ex = frozenset(addr(i) for i in spec[2])
@@ -53,12 +57,26 @@ def make_policy(spec):
     raise ValueError(spec)
 
 
+class _Resolver(object):
+    """Stands in for the `socket` module inside cassandra.policies: nodeN.test resolves to addr(N)."""
+    import socket as _s
+    AF_UNSPEC, SOCK_STREAM, AF_INET = _s.AF_UNSPEC, _s.SOCK_STREAM, _s.AF_INET
+    getfqdn = staticmethod(_s.getfqdn)
+
+    @staticmethod
+    def getaddrinfo(host, port, family=0, type=0, proto=0, flags=0):
+        import socket
+        if isinstance(host, str) and host.startswith('node') and host.endswith('.test'):
+            host = addr(int(host[4:-5]))
+        return [(socket.AF_INET, socket.SOCK_STREAM, 6, '', (host, port or 0))]
+
+
 def tup(x):
     """params travel through JSON in replay artefacts: lists back to tuples / frozensets"""
     if isinstance(x, (list, tuple)):
         x = tuple(tup(e) for e in x)
         if x and x[0] == 'whitelist':
-            return ('whitelist', frozenset(x[1]))
+            return ('whitelist', frozenset(x[1])) + tuple(x[2:])
         if x and x[0] == 'filter':
             return ('filter', x[1], frozenset(x[2]))
         return x
@@ -364,6 +382,7 @@ def specs(ctx):
     out += [('dcaware-%s-%d' % (s[1] or 'infer', s[2]), s) for s in dca]
     out += [
         ('whitelist', ('whitelist', frozenset([0, 2]))),
+        ('whitelist-names', ('whitelist', frozenset([0, 2]), 'names')),
         ('filter-rr', ('filter', ('rr',), frozenset([1]))),
         ('filter-dcaware', ('filter', ('dcaware', 'dc1', 1), frozenset([2]))),
         ('default-rr', ('wrap', ('rr',), 'default')),
